@@ -8,7 +8,8 @@ RULE = ('diffs of code snippets in 18 languages x pairs of syntax themes of the 
         'slots randomly with/without the "syntax" foreground x unified/side-by-side; cell-by-cell comparison of the two runs; '
         'plus the same diff under two file names of the same kind; plus the same section (git or plain "diff -u" form, 0..3 context lines) '
         'between two different pairs of neighbouring sections in other languages, whose rows must not change; plus the same code as '
-        'rg --json / git grep hits and as blame lines under two file names of the same kind with different directories; distinct = (language, theme pair, which slots are syntax, '
+        'rg --json / git grep hits and as blame lines under two file names of the same kind with different directories; plus a file '
+        'with an unrecognised name under --default-language X against the same diff of a file named *.X; distinct = (language, theme pair, which slots are syntax, '
         'view, sub-check); non-trivial = at least one cell differs in foreground between the two themes (theme check) / '
         'diff has highlighted cells (rename check)')
 ASSUMPTIONS = ['style slots are recognised by reserved background colours']
@@ -30,6 +31,8 @@ def plan(ctx):
         items.append(('neighbour', engine.stable_hash((ctx.seed, 'c15n', i))))
     for i in range(ctx.n(800, 12000)):
         items.append(('grep-blame-name', engine.stable_hash((ctx.seed, 'c15g', i))))
+    for i in range(ctx.n(600, 9000)):
+        items.append(('default-language', engine.stable_hash((ctx.seed, 'c15d', i))))
     return items
 
 
@@ -145,11 +148,68 @@ def run_grep_blame_name(rng):
     return o
 
 
+EXT_OF = {'rs': 'rs', 'py': 'py', 'c': 'c', 'js': 'js', 'go': 'go', 'java': 'java', 'rb': 'rb', 'sh': 'sh', 'html': 'html', 'css': 'css',
+          'json': 'json', 'md': 'md', 'yaml': 'yaml', 'toml': 'toml', 'hs': 'hs'}
+
+
+def run_default_language(rng):
+    """A file whose name says nothing (unknown extension, or a bare name even when its first line is a shebang) is coloured in
+    the configured default language: exactly like the same diff of a file that has that language's extension."""
+    lang = rng.choice(sorted(EXT_OF))
+    ext = EXT_OF[lang]
+    unknown = rng.choice(['f.xyzunknown', 'dir/data.qqq0', 'NOEXTENSIONNAME', 'sub/dir/zzzfile'])
+    opts, syn, fixed = slot_styles(rng)
+    cls_dark = rng.random() < 0.6
+    opts['--dark' if cls_dark else '--light'] = True
+    opts['--syntax-theme'] = rng.choice(gen.THEMES_DARK if cls_dark else gen.THEMES_LIGHT)
+    st = rng.getstate()
+    l1 = make_diff(rng, lang, unknown)
+    rng.setstate(st)
+    l2 = make_diff(rng, lang, 'known_name.' + ext)
+    if l1 is None or l2 is None:
+        return inconclusive('empty diff')
+    o1 = dict(opts)
+    o1['--default-language'] = ext
+    a = runner.run_delta(gen.to_args(o1), ('\n'.join(l1) + '\n').encode())
+    b = runner.run_delta(gen.to_args(opts), ('\n'.join(l2) + '\n').encode())
+    for r in (a, b):
+        c = crash_outcome(r, ID)
+        if c is not None:
+            c['executions'] = 2
+            return c
+        if r.rc != 0:
+            return inconclusive('exit %d: %s' % (r.rc, r.err[:100]))
+    sets = {'languages': [lang], 'views': ['unified'], 'sub': ['default-language']}
+    counters = {'cells_compared': 0, 'pairs': 1}
+
+    def code_rows(res):
+        out = []
+        for rw in term.decode(res.out):
+            if rows.classify(rw).kind == 'code':
+                out.append([(c_.ch, c_.fg, c_.bg, c_.attrs) for c_ in rw.cells])
+        return out
+    ca, cb = code_rows(a), code_rows(b)
+    counters['cells_compared'] = sum(len(r_) for r_ in ca)
+    hl = sum(1 for r_ in cb for c_ in r_ if gen.TAG_BY_RGB.get(c_[2]) in syn and syn[gen.TAG_BY_RGB.get(c_[2])] and c_[1] is not None)
+    if ca != cb:
+        k = next((i for i in range(min(len(ca), len(cb))) if ca[i] != cb[i]), min(len(ca), len(cb)))
+        o = violated('c15:default-language:not-applied', 'a file with an unrecognised name (%r) under --default-language %s is not coloured like the same diff of a .%s file'
+                     % (unknown, ext, ext), repr(cb[k][:6]) if k < len(cb) else None, repr(ca[k][:6]) if k < len(ca) else None, run=a, counters=counters, sets=sets)
+        o['executions'] = 2
+        return o
+    o = held(sig=('default-language', lang, unknown, tuple(sorted(k for k, v in syn.items() if v))), nontrivial=hl > 0, counters=counters, sets=sets,
+             sample={'sub': 'default-language', 'language': lang, 'unknown_name': unknown, 'highlighted_cells': hl})
+    o['executions'] = 2
+    return o
+
+
 def run_item(item):
     kind, seed = item
     rng = engine.item_rng(seed)
     if kind == 'grep-blame-name':
         return run_grep_blame_name(rng)
+    if kind == 'default-language':
+        return run_default_language(rng)
     lang = rng.choice(sorted(snippets.SNIPPETS))
     names = snippets.NAMES[lang]
     opts, syn, fixed = slot_styles(rng)
